@@ -66,6 +66,7 @@ func c09prop(ev *evid.Rec) func(rt *rapid.T) {
 			if own {
 				dir = ownRoot(rt, w, acct("admin", "Admin", "adminpw", allAccess))
 			}
+			rootDir := dir
 			var path []byte
 			if target == "Uploads" {
 				dir = filepath.Join(dir, "Uploads")
@@ -224,6 +225,32 @@ func c09prop(ev *evid.Rec) func(rt *rapid.T) {
 					}
 					if pb2, ok := readOrNil(partial); !ok || !bytes.Equal(pb2, pb) {
 						rt.Fatalf("%s: the partial file changed by a download request for the unfinished name", label)
+					}
+				}
+				// ... and whatever the server does with a request to move the unfinished entry to another folder (leave it where it
+				// is, or take the partial data along), the name is not published by it and the partial data stays resumable
+				if pok && have > 0 && have < size && rapid.IntRange(0, 3).Draw(rt, label+"_moveWhilePartial") == 0 {
+					must(os.MkdirAll(filepath.Join(rootDir, "moved to"), 0o755))
+					mf := []hlref.Field{fld(hlref.FFileName, wireName), fld(hlref.FFileNewPath, p1("moved to"))}
+					if path != nil {
+						mf = append(mf, fld(hlref.FFilePath, path))
+					}
+					c.Request(hlref.TranMoveFile, mf...)
+					dstFinal := filepath.Join(rootDir, "moved to", name)
+					for _, f := range []string{final, dstFinal} {
+						if b, ok := readOrNil(f); ok {
+							rt.Fatalf("%s: after a move request for the unfinished upload %q (%d of %d bytes received) the file exists under its final name at %s with %d bytes (cuts %v)", label, name, have, size, f, len(b), cutLog)
+						}
+					}
+					src, sok := readOrNil(partial)
+					dst, dok := readOrNil(dstFinal + ".incomplete")
+					switch {
+					case sok && !dok && bytes.Equal(src, pb):
+					case dok && !sok && bytes.Equal(dst, pb):
+						// the partial data travelled: the upload goes on in the new folder
+						dir, final, partial, path = filepath.Join(rootDir, "moved to"), dstFinal, dstFinal+".incomplete", p1("moved to")
+					default:
+						rt.Fatalf("%s: after a move request for the unfinished upload %q the partial data (%d bytes) is at the old place: %v (%d bytes), at the new place: %v (%d bytes)", label, name, len(pb), sok, len(src), dok, len(dst))
 					}
 				}
 				return false
